@@ -93,6 +93,10 @@ class Fragment(AbstractApplication):
         frag_offset = 0
         while frag_offset < len(payload_data):
             fctr = BundleContainer()
+            if 'receive' in ctr.actions:
+                # a fragment of a forwarded bundle is not sourced here either,
+                # its primary block must stay as received
+                fctr.actions['receive'] = ctr.actions['receive']
             fctr.bundle.primary = ctr.bundle.primary.copy()
             fctr.bundle.primary.bundle_flags |= PrimaryBlock.Flag.IS_FRAGMENT
             fctr.bundle.primary.fragment_offset = frag_offset
